@@ -506,6 +506,10 @@ class Fn:
             return 'mf_swaplevel_getcol_unstack ' + recv, 'mframe_swapped'
         if tr == 'mseries_swapped' and m == 'unstack' and not A and not kw:
             return self.monadic(recv, 'wide')
+        if tr == 'qarr2' and m == 'astype' and len(A) == 1 and ast.unparse(A[0]) in ('np.float64', 'float', "'float64'") and not kw:
+            # the model's position array holds the exact coordinate VALUES; a change of the storage dtype to float64 is the
+            # identity on them (fix F20 inserted it so that narrow integer storage cannot wrap in r**2)
+            return recv, 'qarr2'
         if tr == 'ivec' and m == 'astype' and len(A) == 1 and is_const(A[0], 'float64') and not kw:
             return '(ivec_astype_float %s)' % recv, 'fvec'
         if tr == 'mseries' and m == 'notna' and not A and not kw:
